@@ -514,7 +514,7 @@ def NsInv (nStr nLibs : Nat) (ns : NativeSymbols) : Prop :=
   MapBelow ns.map ns.addrs.length ∧
   -- the map points at the row of the (lib, address) it is keyed by, and finds every row (improvement round)
   (∀ kv ∈ ns.map, ns.libs[kv.2]? = some kv.1.1 ∧ ns.addrs[kv.2]? = some kv.1.2) ∧
-  (∀ (j l a : Nat), ns.libs[j]? = some l → ns.addrs[j]? = some a → ∃ j', alookup ns.map (l, a) = some j')
+  (∀ (j l a : Nat), ns.libs[j]? = some l → ns.addrs[j]? = some a → alookup ns.map (l, a) = some j)
 
 theorem NsInv.mono {nStr nLibs nStr' nLibs' : Nat} {ns : NativeSymbols} (h : NsInv nStr nLibs ns)
     (h1 : nStr ≤ nStr') (h2 : nLibs ≤ nLibs') : NsInv nStr' nLibs' ns :=
@@ -552,21 +552,22 @@ theorem NativeSymbols.indexFor_spec (ns : NativeSymbols) (lib : Nat) (sym : Sym)
         exact ⟨getElem?_append_old _ g1, getElem?_append_old _ g2⟩
     · intro j l a hl' ha'
       simp only [alookup]
-      by_cases he : (lib, sym.addr) = (l, a)
-      · exact ⟨_, by rw [if_pos he]⟩
-      · rw [if_neg he]
-        simp only [getElem?_append_one] at hl' ha'
-        by_cases hj : j < ns.addrs.length
+      simp only [getElem?_append_one] at hl' ha'
+      by_cases hj : j < ns.addrs.length
+      · rw [if_pos (by omega)] at hl'
+        rw [if_pos hj] at ha'
+        have hold := a8 j l a hl' ha'
+        by_cases he : (lib, sym.addr) = (l, a)
+        · rw [← he, hlk] at hold; cases hold
+        · rw [if_neg he]; exact hold
+      · rw [if_neg (by omega)] at hl'
+        rw [if_neg hj] at ha'
+        split at ha'
         · rw [if_pos (by omega)] at hl'
-          rw [if_pos hj] at ha'
-          exact a8 j l a hl' ha'
-        · rw [if_neg (by omega)] at hl'
-          rw [if_neg hj] at ha'
-          split at ha'
-          · rw [if_pos (by omega)] at hl'
-            cases hl'; cases ha'
-            exact absurd rfl he
-          · cases ha'
+          cases hl'; cases ha'
+          rename_i hje
+          simp [hje]
+        · cases ha'
 
 /-- the returned row is the row of `(lib, sym.addr)`; its size / name are `sym`'s if the pair was not yet
 registered (no row carries it), otherwise the row is untouched; columns are only appended -/
@@ -596,7 +597,7 @@ theorem NativeSymbols.indexFor_get (ns : NativeSymbols) (lib : Nat) (sym : Sym) 
     simp only
     refine ⟨by simp [a2], by simp, by simp [a3], ?_, ?_⟩
     · rintro ⟨j, hj1, hj2⟩
-      obtain ⟨j', hj'⟩ := a8 j _ _ hj1 hj2
+      have hj' := a8 j _ _ hj1 hj2
       rw [hlk] at hj'
       cases hj'
     · intro _
